@@ -323,6 +323,33 @@ pub fn run(ctx: &mut Ctx) -> Report {
 	let rule = "key documents (rcgen-generated per algorithm; ring-generated; OpenSSL-generated PKCS#8 v1, SEC1, PKCS#1, RSA 2048/3072/4096) x loading entry points (auto-detecting from DER, PEM, PrivatePkcs8KeyDer; explicit algorithm via PKCS#8 DER/PEM and via any-format DER/PEM) x every requested algorithm of the build (matching and mismatched); non-trivial = one (document, entry point, algorithm)";
 	let mut s = Suite::new(ctx, "C11", rule);
 	let docs = make_docs(&s.ctx.rsa_fixture.clone(), s.ctx.thorough);
+	// keys as they come out of generation, before any save / load: each reports the algorithm it
+	// was generated for and signs under it
+	{
+		let mut fresh: Vec<(String, &'static SignatureAlgorithm, Result<KeyPair, Error>)> = Vec::new();
+		for alg in keys::build_algs() {
+			fresh.push((format!("generate_for({})", alg_name(alg)), alg, KeyPair::generate_for(alg)));
+			#[cfg(feature = "aws")]
+			if alg_name(alg).starts_with("rsa") {
+				fresh.push((format!("generate_rsa_for({}, 2048)", alg_name(alg)), alg, KeyPair::generate_rsa_for(alg, RsaKeySize::_2048)));
+			}
+		}
+		for (what, alg, r) in fresh {
+			let Ok(k) = r else {
+				s.rep.count("generation_refused");
+				continue;
+			};
+			s.rep.case(&what, true);
+			if k.algorithm() != alg {
+				s.rep.violate("C11:told-algorithm-kept", "a key generated for an algorithm reports another one", what.clone());
+			}
+			let kty = match alg_name(alg) { "ed25519" => "ed25519", "ecdsaP256" => "p256", "ecdsaP384" => "p384", "ecdsaP521" => "p521", _ => "rsa" };
+			let der = k.serialize_der();
+			let doc = Doc { origin: "rcgen-fresh".into(), fmt: classify_doc(&der), kty, der, public: k.public_key_raw().to_vec() };
+			check_loaded(&mut s, &what, &doc, &k);
+		}
+		s.rep.exhaustive.push("freshly generated keys of every algorithm the build generates (generate_for; generate_rsa_for on aws-lc-rs), used before any save / load".into());
+	}
 	let algs = keys::build_algs();
 	for doc in &docs {
 		s.rep.count(&format!("doc:{}:{}:{}", doc.origin.split('-').next().unwrap(), doc.fmt, doc.kty));
